@@ -3,7 +3,6 @@ package main
 import (
 	"encoding/json"
 	"fmt"
-	"net"
 	"time"
 
 	"github.com/anthdm/hollywood/actor"
@@ -31,15 +30,6 @@ type peerCase struct {
 type peerObs struct {
 	Outcome string `json:"outcome"` // "ok" | "error" | "panic"
 	Note    string `json:"note,omitempty"`
-}
-
-func freeAddr() string {
-	l, err := net.Listen("tcp", "127.0.0.1:0")
-	if err != nil {
-		return "127.0.0.1:45999"
-	}
-	defer l.Close()
-	return l.Addr().String()
 }
 
 func runPeer(raw json.RawMessage) (any, error) {
